@@ -22,6 +22,7 @@ def run(ctx):
     lib_module.array_flags(ctx, P, only=ms)
     lib_module.parsed_used(ctx, P, only=ms)
     lib_variant.simplifier_pairs(ctx, P)
+    lib_variant.reduce_site_set(ctx, P)
     lib_mem.block_allocator(ctx, P)
     lib_mem.logical_not_in_mask(ctx, P, tus=["tables", "core"])
     lib_schema.argname(ctx, P, tus=("tables",), funcs=simp)
